@@ -143,3 +143,79 @@ def feature_labels(f, n=None):
     if len(subs) != len(set(subs)):
         labs.add('dup-subformula')
     return sorted(labs)
+
+
+# --------------------------------------------------------------------------
+# giant windows: sizes at which an implementation may switch to another algorithm
+# --------------------------------------------------------------------------
+
+GIANT_WIDTHS = (200, 255, 256, 257, 300, 400, 511, 512, 513, 640, 1000, 1023, 1024, 1025, 1100)
+
+
+@st.composite
+def spiky_trace(draw, variables, n):
+    """Mostly flat signals (long runs of 0 / 1) with a few isolated extreme samples: a window that is one sample too long,
+    too short or shifted includes or misses a spike at exactly one position, whatever the width of the window."""
+    tr = {}
+    for v in variables:
+        xs = []
+        while len(xs) < n:
+            xs += [draw(st.sampled_from([0.0, 1.0, 0.0, -1.0]))] * draw(st.sampled_from([1, 3, 20, 90, 250, 600]))
+        xs = xs[:n]
+        for _ in range(draw(st.integers(1, 5))):
+            i = draw(st.integers(0, n - 1))
+            xs[i] = float(draw(st.sampled_from([-1, 1])) * draw(st.integers(10, 40)))
+        # spikes near both ends of the trace (the first and last windows are the incomplete ones)
+        if n > 4 and draw(st.booleans()):
+            xs[draw(st.integers(0, min(3, n - 1)))] = float(draw(st.integers(-60, -41)))
+        if n > 4 and draw(st.booleans()):
+            xs[n - 1 - draw(st.integers(0, min(3, n - 1)))] = float(draw(st.integers(41, 60)))
+        tr[v] = xs
+    return tr
+
+
+@st.composite
+def giant_cases(draw, ops, tbin_ops=(), lengths='any', max_width=1100):
+    """One bounded operator whose window is 200 .. 1100 samples wide (around 256, 512 and 1024 in particular), lower bound
+    0 or not, over a simple operand; optionally negated, combined with its dual or nested under a narrow operator.
+    lengths: 'any' (also traces not longer than the lower / upper bound) or 'long' (trace longer than the upper bound)."""
+    vs = ['x', 'y']
+    x = ('var', draw(st.sampled_from(vs)))
+    g = draw(st.sampled_from([x, x, ('pred', '>=', x, ('const', 1.0)), ('un', 'not', ('pred', '<', x, ('var', 'y'))), ('un', 'abs', x),
+                              ('pred', '<=', x, ('const', 3.0))]))
+    width = draw(st.sampled_from([w for w in GIANT_WIDTHS if w <= max_width]))
+    a = draw(st.sampled_from([0, 0, 1, 3, 17, 100, 300]))
+    b = a + width
+    op = draw(st.sampled_from(list(ops)))
+    if tbin_ops and draw(st.integers(0, 7)) == 0:
+        # bounded since / until: rtamt itself needs seconds per case beyond a few hundred samples (cubic), so fewer and narrower
+        op = draw(st.sampled_from(list(tbin_ops)))
+        width = draw(st.sampled_from([140, 200, 257]))
+        a = draw(st.sampled_from([0, 1, 17]))
+        b = a + width
+        other = ('pred', '>=', ('var', 'y'), ('const', 0.0)) if draw(st.booleans()) else ('var', 'y')
+        f = ('tbin', op, a, b, g, other)
+    else:
+        f = ('tun', op, a, b, g)
+    k = draw(st.integers(0, 5))
+    dual = {'once': 'historically', 'historically': 'once', 'eventually': 'always', 'always': 'eventually'}
+    reach = b
+    if k == 1:
+        f = ('un', 'not', f)
+    elif k == 2 and f[0] == 'tun':
+        f = ('bin', draw(st.sampled_from(['and', 'or', 'implies'])), f, ('tun', dual[op], a, b, ('un', 'not', g)))
+    elif k == 3 and f[0] == 'tun':
+        # a narrow operator of the same direction above the wide one
+        c = draw(st.integers(0, 3))
+        d = c + draw(st.integers(0, 2))
+        f = ('tun', op, c, d, f)
+        reach = b + d
+    h = reach
+    if lengths == 'long':
+        n = h + draw(st.sampled_from([1, 2, 3, 10, 50, 200, 500]))
+    else:
+        n = draw(st.sampled_from([1, 2, max(1, a), a + 1, a + 2, max(1, b - 1), b, b + 1, b + 2, b + 3, b + 10, b + 50, b + 200, b + 500, 2 * b + 5]))
+    if f[0] == 'tbin' or (f[0] == 'un' and f[2][0] == 'tbin'):
+        n = min(n, b + 60)
+    tr = draw(spiky_trace(vs, n))
+    return {'formula': f, 'vars': vs, 'trace': tr}
